@@ -47,7 +47,7 @@ def run(ctx):
     _check_fuse(ctx, model)
     _check_disambiguate(ctx, model)
     _check_used_identifiers(ctx, model)
-    _check_closure_loop(ctx, model)
+    _check_dot_export(ctx, model)
     _streams_consumed_once(ctx, model)
     _dot_ids_quoted_alike(ctx, model)
 
@@ -131,9 +131,113 @@ def _read_attrs_of(model, owner, fn):
     return attrs, uses_super, problems
 
 
+def _judge_reads(model, cls, want):
+    """interpretive judge: get_read_variables() of a statement class interpreted
+    along the class's MRO (super() goes to the next definition) on a statement
+    whose expression attributes hold distinct tokens; the dependency mapper is
+    a hook that answers one variable per token.  The result must be exactly the
+    variables of the statement's expressions.  -> witnesses"""
+    from ..absint import Interp, Obj, Opaque, Raised, StepBound, module_env
+    chain = []
+    for k in model.mro(cls):
+        if isinstance(k, ClassInfo):
+            mem = k.members.get("get_read_variables")
+            if mem is not None and mem.kind == "func":
+                chain.append(mem.node)
+    if not chain:
+        raise AnalysisError(f"{cls.name}.get_read_variables not found")
+
+    class Tok:
+        def __init__(self, nm):
+            self.nm = nm
+
+    class Dep:
+        def __init__(self, name):
+            self.name = name
+    fields = {a: Tok(a) for a in ("lhs", "rhs", "condition")}
+    stmt = Obj(cls.name, dict(fields, id="s0", depends_on=frozenset()))
+    level = [0]
+    glob = module_env(cls.module.tree, {})
+
+    def dep_mapper(expr):
+        if isinstance(expr, Tok):
+            return frozenset([Dep(f"v_{expr.nm}")])
+        if expr is True or expr is None:
+            return frozenset()
+        raise AnalysisError(f"dependency mapper applied to {expr!r}")
+
+    def attrs(it, nd, base, attr):
+        if isinstance(base, Dep) and attr == "name":
+            return base.name
+        return Opaque(ast.unparse(nd))
+
+    def resolve(c, nm):
+        for k in model.mro(cls):
+            if isinstance(k, ClassInfo) and nm in k.members and \
+                    k.members[nm].kind == "func" and nm != "get_read_variables":
+                return ("func", k.members[nm].node)
+        return None
+    it = None
+
+    def sup(it_, nd, a, k):
+        level[0] += 1
+        try:
+            if level[0] >= len(chain):
+                return frozenset()
+            return it_.call_function(chain[level[0]], [stmt], dict(glob))
+        finally:
+            level[0] -= 1
+    me = chain[0].args.args[0].arg
+    calls = {"super().get_read_variables": sup,
+             f"{me}.get_dependency_mapper":
+                 lambda it_, nd, a, k: dep_mapper}
+    it = Interp(calls=calls, attrs=attrs, resolve=resolve, globals_=glob,
+                max_steps=20000)
+    try:
+        res = it.call_function(chain[0], [stmt], dict(glob))
+    except Raised as r:
+        return [f"{cls.name}.get_read_variables raises at line "
+                f"{getattr(r.node, 'lineno', '?')}"]
+    except StepBound:
+        return [f"{cls.name}.get_read_variables does not terminate"]
+    expect = {f"v_{a}" for a in want}
+    got = set(res) if isinstance(res, (set, frozenset, list, tuple)) else None
+    if got != expect:
+        return [f"{cls.name}.get_read_variables reports "
+                f"{sorted(got) if got is not None else res!r} for a statement "
+                f"whose expressions hold the variables {sorted(expect)}"]
+    return []
+
+
 def _check_reads(ctx, model):
     for cname in ("Assignment", "ConditionalAssignment", "Nop"):
         cls = model.cls(f"{ST}:{cname}")
+        try:
+            jw = _judge_reads(model, cls, EXPR_ATTRS[cname])
+        except AnalysisError as e:
+            jw = None
+            ctx.extra[f"judge_unavailable:{cname}.get_read_variables"] = \
+                str(e)[:100]
+        if jw is not None:
+            ctx.ob(f"S0/{cname}/get_read_variables/semantics", not jw, cls.loc(),
+                   f"{cname}.get_read_variables interpreted along the MRO: "
+                   "exactly the variables of " + ", ".join(
+                       sorted(EXPR_ATTRS[cname])) if not jw else jw[0])
+        mark = len(ctx.obs)
+        try:
+            _check_reads_structural(ctx, model, cname, cls)
+        except AnalysisError:
+            if jw is None or jw:
+                raise
+        if jw is not None and not jw:
+            ctx.withdraw_failures_since(
+                mark, "decided by interpreting the method along the MRO",
+                f"S/{cname}/get_read_variables/")
+    _check_reads_after_assignment(ctx, model)
+
+
+def _check_reads_structural(ctx, model, cname, cls):
+    if True:
         chain = _chain(model, cls, "get_read_variables")
         attrs = set()
         where = cls.loc()
@@ -155,6 +259,9 @@ def _check_reads(ctx, model):
                f"{sorted(attrs)} but the statement's expressions are "
                f"{sorted(want)}", {"consulted": sorted(attrs),
                                    "chain": [o.name for o, _ in chain]})
+
+
+def _check_reads_after_assignment(ctx, model):
     # Assignment drops super()'s result: harmless only while the next class in
     # every MRO chain after Assignment contributes nothing
     asg = model.cls(f"{ST}:Assignment")
@@ -972,6 +1079,139 @@ def _single_sweep_closure(ctx, m, fn):
                 ctx.ob("P/closure/fixed-point", True, m.loc(c),
                        "single sweep with the intermediate statement outermost "
                        "(Warshall)")
+
+
+def _judge_dot(model):
+    """interpretive judge (pv/absint.py): get_dot_dependency_graph interpreted
+    on small acyclic dependency graphs -- chains with shortcut edges (listed
+    dependents-first and dependencies-first), a diamond with a shortcut,
+    disconnected parts, a graph that is sparse and still has a redundant edge
+    -- and the edges written into the returned text compared with the
+    transitive reduction (unique for an acyclic graph).  -> (witnesses, n)"""
+    import re
+    from ..absint import Interp, Opaque, Raised, StepBound, module_env
+    UT = "pymbolic.imperative.utils"
+    m, fn = model.func(f"{UT}:get_dot_dependency_graph")
+    glob = module_env(m.tree, {})
+
+    class Stmt:
+        def __init__(self, id, deps):
+            self.id, self.depends_on = id, frozenset(deps)
+            self.then_depends_on = self.else_depends_on = frozenset()
+
+        def __str__(self):
+            return f"stmt {self.id}"
+
+    def attrs(it, nd, base, attr):
+        if isinstance(base, Stmt) and hasattr(base, attr):
+            return getattr(base, attr)
+        return Opaque(ast.unparse(nd))
+
+    def reduction(edges):
+        succ = {}
+        for a, b in edges:
+            succ.setdefault(a, set()).add(b)
+
+        def reach(a, seen=None):
+            seen = set() if seen is None else seen
+            for b in succ.get(a, ()):
+                if b not in seen:
+                    seen.add(b)
+                    reach(b, seen)
+            return seen
+        out = set()
+        for a, b in edges:
+            if not any(b in reach(c) for c in succ[a] if c != b):
+                out.add((a, b))
+        return out
+    G = {
+        "chain of 5 with shortcuts, dependencies first":
+            [("s1", ()), ("s2", ("s1",)), ("s3", ("s2", "s1")),
+             ("s4", ("s3", "s1")), ("s5", ("s4", "s2", "s1"))],
+        "chain of 5 with shortcuts, dependents first":
+            [("s5", ("s4", "s2", "s1")), ("s4", ("s3", "s1")),
+             ("s3", ("s2", "s1")), ("s2", ("s1",)), ("s1", ())],
+        "diamond with a shortcut":
+            [("top", ()), ("l", ("top",)), ("r", ("top",)),
+             ("bottom", ("l", "r", "top"))],
+        "two parts, one of them with a redundant edge":
+            [("a", ()), ("b", ()), ("c", ()), ("d", ()), ("load", ("a",)),
+             ("calc", ("load",)), ("store", ("calc", "load"))],
+        "chain of 9 with one long shortcut, dependents first":
+            [(f"m{i}", (f"m{i-1}",) if i > 1 else ()) for i in range(9, 0, -1)][:0]
+            + [("m9", ("m8", "m1"))] + [(f"m{i}", (f"m{i-1}",))
+                                        for i in range(8, 1, -1)] + [("m1", ())],
+        "chain of 9 with one long shortcut, dependencies first":
+            [("k1", ())] + [(f"k{i}", (f"k{i-1}",)) for i in range(2, 9)]
+            + [("k9", ("k8", "k1"))],
+        "chain of 9, shortcut, interleaved listing":
+            [("j5", ("j4",)), ("j9", ("j8", "j1")), ("j2", ("j1",)),
+             ("j7", ("j6",)), ("j1", ()), ("j4", ("j3",)), ("j8", ("j7",)),
+             ("j3", ("j2",)), ("j6", ("j5",))],
+        "chain of 18 with a long shortcut, dependents first":
+            [("c18", ("c17", "c01"))] + [(f"c{i:02d}", (f"c{i-1:02d}",))
+                                         for i in range(17, 1, -1)]
+            + [("c01", ())],
+        "no dependencies at all": [("a", ()), ("b", ())],
+        "one edge": [("a", ()), ("b", ("a",))],
+        "a chain of 6 listed in a mixed order":
+            [("n3", ("n2",)), ("n6", ("n5", "n1")), ("n1", ()), ("n5", ("n4",)),
+             ("n2", ("n1",)), ("n4", ("n3", "n1"))],
+    }
+    wit = []
+    for label, spec in G.items():
+        stmts = [Stmt(i, d) for i, d in spec]
+        it = Interp(calls={"str": lambda it_, nd, a, k: str(a[0])},
+                    attrs=attrs, globals_=glob, max_steps=4000000)
+        try:
+            res = it.call_function(fn, [stmts], {"__kwargs__": {
+                "use_stmt_ids": True,
+                "preamble_hook": lambda: ['node [shape="box"];'],
+                "additional_lines_hook": lambda: []}})
+        except Raised as r:
+            wit.append(f"{label}: raises at line {getattr(r.node, 'lineno', '?')}")
+            continue
+        except StepBound:
+            wit.append(f"{label}: does not terminate")
+            continue
+        if not isinstance(res, str):
+            raise AnalysisError("get_dot_dependency_graph: the result is not "
+                                "text the judge can read")
+        got = set(re.findall(r'^\s*"?([\w-]+)"?\s*->\s*"?([\w-]+)"?',
+                             res, re.M))
+        want = reduction({(i, d) for i, ds in spec for d in ds})
+        if got != want:
+            extra, missing = sorted(got - want), sorted(want - got)
+            wit.append(f"{label}: " + (f"draws {extra}, which other edges imply"
+                                       if extra else "") +
+                       (" and " if extra and missing else "") +
+                       (f"does not draw {missing}" if missing else ""))
+    return wit, len(G)
+
+
+def _check_dot_export(ctx, model):
+    UT = "pymbolic.imperative.utils"
+    m, fn = model.func(f"{UT}:get_dot_dependency_graph")
+    try:
+        jw, jn = _judge_dot(model)
+    except AnalysisError as e:
+        jw = None
+        ctx.extra["judge_unavailable:get_dot_dependency_graph"] = str(e)[:120]
+    if jw is not None:
+        ctx.ob("P0/closure/transitive-reduction", not jw, m.loc(fn),
+               f"get_dot_dependency_graph interpreted on {jn} acyclic graphs: "
+               "the edges drawn are exactly the transitive reduction" if not jw
+               else "get_dot_dependency_graph: " + "; ".join(jw[:2]))
+    mark = len(ctx.obs)
+    try:
+        _check_closure_loop(ctx, model)
+    except AnalysisError:
+        if jw is None or jw:
+            raise
+    if jw is not None and not jw:
+        ctx.withdraw_failures_since(
+            mark, "decided by interpreting the export on small graphs",
+            "P/closure/")
 
 
 def _check_closure_loop(ctx, model):
